@@ -138,6 +138,13 @@ def member_forms(nprev, depth):
             forms.append(["E%d" % i, "/", "L", "/", "L"])
             forms.append(["E%d" % i, "-", "L", "-", "L"])
             forms.append(["+", "E%d" % i])
+            # a bracketed product / quotient on the right of / and *, and a signed operand after * and /
+            forms.append(["L", "/", "(", "E%d" % i, "*", "L", ")"])
+            forms.append(["L", "*", "(", "E%d" % i, "/", "L", ")"])
+            forms.append(["L", "/", "(", "L", "/", "E%d" % i, ")"])
+            forms.append(["E%d" % i, "*", "-", "L"])
+            forms.append(["L", "/", "-", "E%d" % i])
+            forms.append(["E%d" % i, "-", "-", "L"])
         if nprev >= 2:
             forms.append(["(", "E0", "+", "E1", ")", "*", "L"])
             forms.append(["E0", "-", "(", "E1", "-", "L", ")"])
